@@ -105,7 +105,7 @@ def section10():
         note = c.get("note", "")
         rows.append((sid, files, summ, caught, note))
     out = ["## 10. Seeded changes: which checks catch which changes", "",
-           "Each change was written by a fresh agent that was given only the property's text and its own git worktree (nothing from /verif), had to keep the existing test suite green, "
+           "Three rounds (ids `_a/_b`, `_c/_d`, `_e/_f`). Each change was written by a fresh agent that was given only the property's text and its own git worktree (nothing from /verif), had to keep the existing test suite green, "
            "and supplied a demo that fails only with the change. `seeded/<id>/` holds `patch.diff`, `demo.py`, `meta.json` and the output of the run "
            "(`tools/seeded_run.sh <id> <properties>` applies the patch to /repo, runs the demo and the checks, undoes it). *Caught by* lists the violated obligations "
            "(`…/runtime-contract` = a bounded run-time contract found a concrete failing input; everything else is a named deductive obligation). "
